@@ -1,15 +1,16 @@
 //! PKWare DCL compression for MPQ archives
 //!
-//! Compression is delegated to the pklib crate. Decompression is implemented here:
-//! the stream comes from untrusted archives, so the decoder has to reject every
+//! Both directions are implemented here over the code tables of the pklib crate. The
+//! encoder has to take an input of any length (a sector or a whole file is one stream).
+//! The stream to decode comes from untrusted archives, so the decoder has to reject every
 //! malformed stream with an error, and it has to support both literal modes.
 
 use crate::Result;
-use crate::compression::error_helpers::{compression_error, decompression_error};
+use crate::compression::error_helpers::decompression_error;
 use pklib::tables::{
     CH_BITS_ASC, CH_CODE_ASC, DIST_BITS, DIST_CODE, EX_LEN_BITS, LEN_BASE, LEN_BITS, LEN_CODE,
 };
-use pklib::{CompressionMode, DictionarySize, implode_bytes};
+use pklib::{CompressionMode, DictionarySize};
 
 /// Compress data using PKWare DCL algorithm
 pub(crate) fn compress(data: &[u8]) -> Result<Vec<u8>> {
@@ -18,36 +19,244 @@ pub(crate) fn compress(data: &[u8]) -> Result<Vec<u8>> {
         return Ok(Vec::new());
     }
 
-    // Use ASCII mode with 2KB dictionary as default for MPQ archives
-    // This provides good compression ratio for most data types
-    implode_verified(data, CompressionMode::ASCII, DictionarySize::Size2K)
+    // Plain literals and a dictionary that grows with the amount of data, which is
+    // what StormLib uses for MPQ archives
+    let dict_size = if data.len() < 0x600 {
+        DictionarySize::Size1K
+    } else if data.len() < 0xC00 {
+        DictionarySize::Size2K
+    } else {
+        DictionarySize::Size4K
+    };
+
+    Ok(implode(data, CompressionMode::Binary, dict_size))
 }
 
-/// Run the pklib encoder and make sure its output decodes to the input again
-///
-/// The encoder only handles what fits into its work buffer: for inputs above 8708
-/// bytes it encodes the first 8708 bytes twice and drops the rest, and a single byte
-/// is encoded as an empty stream. It reports success in both cases, so the result is
-/// decoded here and anything that does not reproduce the input is an error instead
-/// of silently damaged data.
-fn implode_verified(
-    data: &[u8],
-    mode: CompressionMode,
-    dict_size: DictionarySize,
-) -> Result<Vec<u8>> {
-    let compressed =
-        implode_bytes(data, mode, dict_size).map_err(|e| compression_error("PKWare", e))?;
+/// Shortest and longest copy the encoder writes. The format has codes for up to 518
+/// bytes, but the original library stops at 516 and so does this encoder.
+const MIN_COPY_LENGTH: usize = 2;
+const MAX_COPY_LENGTH: usize = 516;
 
-    match decompress(&compressed, data.len()) {
-        Ok(decoded) if decoded == data => Ok(compressed),
-        _ => Err(compression_error(
-            "PKWare",
-            format!(
-                "the encoder cannot represent this input of {} bytes faithfully",
-                data.len()
-            ),
-        )),
+/// A copy of 2 bytes carries only 2 low distance bits, so it reaches back 256 bytes at most
+const SHORT_COPY_LOW_BITS: u32 = 2;
+const SHORT_COPY_MAX_DISTANCE: usize = 64 << SHORT_COPY_LOW_BITS;
+
+/// Number of earlier positions that are tried for one copy
+const MAX_CANDIDATES: usize = 128;
+
+/// Collects the stream bit by bit, lowest bit of every byte first
+struct BitWriter {
+    output: Vec<u8>,
+    buffer: u64,
+    used: u32,
+}
+
+impl BitWriter {
+    /// Append the lowest `count` (at most 16) bits of `value`
+    fn write(&mut self, value: u32, count: u32) {
+        self.buffer |= u64::from(value & ((1u32 << count) - 1)) << self.used;
+        self.used += count;
+        while self.used >= 8 {
+            self.output.push(self.buffer as u8);
+            self.buffer >>= 8;
+            self.used -= 8;
+        }
     }
+
+    /// Pad the last byte with zero bits
+    fn finish(mut self) -> Vec<u8> {
+        if self.used > 0 {
+            self.output.push(self.buffer as u8);
+        }
+        self.output
+    }
+}
+
+/// Finds earlier occurrences of the bytes at a position within the dictionary
+///
+/// Every position is filed under its first two bytes: `head` holds the latest position
+/// of a byte pair and `previous` the one before each position, both stored plus one so
+/// that 0 means none. `previous` only keeps the last `dictionary` positions.
+struct MatchFinder<'a> {
+    data: &'a [u8],
+    dictionary: usize,
+    head: Vec<u32>,
+    previous: Vec<u32>,
+}
+
+impl<'a> MatchFinder<'a> {
+    fn new(data: &'a [u8], dictionary: usize) -> Self {
+        Self {
+            data,
+            dictionary,
+            head: vec![0; 1 << 16],
+            previous: vec![0; dictionary],
+        }
+    }
+
+    fn key(&self, pos: usize) -> usize {
+        usize::from(self.data[pos]) | usize::from(self.data[pos + 1]) << 8
+    }
+
+    /// File `pos`; positions have to be filed in ascending order without gaps
+    fn insert(&mut self, pos: usize) {
+        if pos + 1 < self.data.len() {
+            let key = self.key(pos);
+            self.previous[pos % self.dictionary] = self.head[key];
+            self.head[key] = (pos + 1) as u32;
+        }
+    }
+
+    /// Longest copy (length, distance) that can stand for the bytes at `pos`, which
+    /// must not be filed yet. Of two copies of the same length the nearer one wins.
+    fn longest_copy(&self, pos: usize) -> Option<(usize, usize)> {
+        let limit = MAX_COPY_LENGTH.min(self.data.len() - pos);
+        if limit < MIN_COPY_LENGTH {
+            return None;
+        }
+
+        let current = &self.data[pos..pos + limit];
+        let mut best: Option<(usize, usize)> = None;
+        let mut best_length = MIN_COPY_LENGTH - 1;
+        let mut candidate = self.head[self.key(pos)] as usize;
+
+        for _ in 0..MAX_CANDIDATES {
+            // Positions further back than the dictionary are gone from `previous`
+            if candidate == 0 || pos - (candidate - 1) > self.dictionary {
+                break;
+            }
+            let start = candidate - 1;
+            let distance = pos - start;
+
+            // Only a candidate that also agrees in the byte after the best length so far
+            // can be longer (that byte exists: the best length is below the limit here)
+            if self.data[start + best_length] == current[best_length] {
+                let length = self.data[start..]
+                    .iter()
+                    .zip(current)
+                    .take_while(|(earlier, byte)| earlier == byte)
+                    .count();
+                let reachable = length > MIN_COPY_LENGTH || distance <= SHORT_COPY_MAX_DISTANCE;
+                if length > best_length && reachable {
+                    best = Some((length, distance));
+                    best_length = length;
+                    if length == limit {
+                        break;
+                    }
+                }
+            }
+
+            candidate = self.previous[start % self.dictionary] as usize;
+        }
+
+        best
+    }
+}
+
+/// Encode `data` as one PKWare DCL stream
+///
+/// The stream is a sequence of literals (bit 0 and the byte, plain or coded) and copies
+/// of earlier output (bit 1, the length code with its extra bits, the distance code and
+/// the low bits of the distance), closed by the length that marks the end of the stream.
+fn implode(data: &[u8], mode: CompressionMode, dict_size: DictionarySize) -> Vec<u8> {
+    let coded_literals = matches!(mode, CompressionMode::ASCII);
+    let (dictionary_bits, dictionary): (u32, usize) = match dict_size {
+        DictionarySize::Size1K => (4, 1024),
+        DictionarySize::Size2K => (5, 2048),
+        DictionarySize::Size4K => (6, 4096),
+    };
+
+    let mut writer = BitWriter {
+        output: Vec::with_capacity(data.len() / 2 + 4),
+        buffer: 0,
+        used: 0,
+    };
+    writer.write(u32::from(coded_literals), 8);
+    writer.write(dictionary_bits, 8);
+
+    let literal_bits = |byte: u8| -> u32 {
+        if coded_literals {
+            1 + u32::from(CH_BITS_ASC[usize::from(byte)])
+        } else {
+            9
+        }
+    };
+
+    let mut finder = MatchFinder::new(data, dictionary);
+    let mut pos = 0;
+
+    while pos < data.len() {
+        if let Some((length, distance)) = finder.longest_copy(pos) {
+            let (length_symbol, length_extra) = length_code(length);
+            let low_bits = if length == MIN_COPY_LENGTH {
+                SHORT_COPY_LOW_BITS
+            } else {
+                dictionary_bits
+            };
+            let distance_symbol = (distance - 1) >> low_bits;
+
+            let copy_bits = 1
+                + u32::from(LEN_BITS[length_symbol])
+                + u32::from(EX_LEN_BITS[length_symbol])
+                + u32::from(DIST_BITS[distance_symbol])
+                + low_bits;
+            let covered = &data[pos..pos + length];
+
+            // With coded literals a short copy can take more bits than the bytes it covers
+            if copy_bits < covered.iter().map(|&byte| literal_bits(byte)).sum::<u32>() {
+                writer.write(1, 1);
+                writer.write(
+                    u32::from(LEN_CODE[length_symbol]),
+                    u32::from(LEN_BITS[length_symbol]),
+                );
+                writer.write(length_extra, u32::from(EX_LEN_BITS[length_symbol]));
+                writer.write(
+                    u32::from(DIST_CODE[distance_symbol]),
+                    u32::from(DIST_BITS[distance_symbol]),
+                );
+                writer.write((distance - 1) as u32, low_bits);
+
+                for covered_pos in pos..pos + length {
+                    finder.insert(covered_pos);
+                }
+                pos += length;
+                continue;
+            }
+        }
+
+        let byte = data[pos];
+        writer.write(0, 1);
+        if coded_literals {
+            writer.write(
+                u32::from(CH_CODE_ASC[usize::from(byte)]),
+                u32::from(CH_BITS_ASC[usize::from(byte)]),
+            );
+        } else {
+            writer.write(u32::from(byte), 8);
+        }
+        finder.insert(pos);
+        pos += 1;
+    }
+
+    let (end_symbol, end_extra) = length_code(END_OF_STREAM_LENGTH);
+    writer.write(1, 1);
+    writer.write(
+        u32::from(LEN_CODE[end_symbol]),
+        u32::from(LEN_BITS[end_symbol]),
+    );
+    writer.write(end_extra, u32::from(EX_LEN_BITS[end_symbol]));
+
+    writer.finish()
+}
+
+/// Length code and the value of its extra bits for a copy of `length` (2..=519) bytes
+fn length_code(length: usize) -> (usize, u32) {
+    let value = length - MIN_COPY_LENGTH;
+    let symbol = LEN_BASE
+        .iter()
+        .rposition(|&base| usize::from(base) <= value)
+        .unwrap_or(0);
+    (symbol, (value - usize::from(LEN_BASE[symbol])) as u32)
 }
 
 /// Longest code of the literal, length and distance code sets
@@ -272,7 +481,7 @@ pub(crate) fn compress_with_options(
         return Ok(Vec::new());
     }
 
-    implode_verified(data, mode, dict_size)
+    Ok(implode(data, mode, dict_size))
 }
 
 #[cfg(test)]
